@@ -41,6 +41,9 @@ func SelfTest(verifDir, what string, seed uint64) (int, error) {
 		}
 		if what != "pool" {
 			targets = append(targets, target{"sign", "C09", "asm", bin, nil, nil}, target{"sign", "C14", "purego", binP, nil, nil}, target{"signenum", "C09", "asm", bin, nil, nil})
+			if sb, _ := e.buildStall(); sb != "" {
+				targets = append(targets, target{"stall", "C09", simStall.Name, sb, nil, nil}, target{"stall", "C14", simStall.Name, sb, nil, nil})
+			}
 		}
 		if what != "sign" {
 			targets = append(targets, target{"pool", "C18", "asm", bin, nil, nil}, target{"pool", "C03", "purego", binP, nil, nil})
